@@ -177,7 +177,7 @@ def pre_one(status: int, style: int, ops: List[int]) -> bool:
 
 @harness(
     pre=pre_one,
-    quick=dict(N=5, timeout=120),
+    quick=dict(N=4, timeout=120, reach_timeout=90),
     thorough=dict(N=7, timeout=1200),
     nshards=dict(quick=12, thorough=12),
     reach=["exit_before_registration", "exit_after_registration", "killed_by_signal", "called_process_error",
